@@ -15,24 +15,441 @@ def RowClean (r : Row) : Bool :=
 def recOfRow (r : Row) (i n : Int) (x y z : PyFloat) : AtomRec :=
   AtomRec.mk (r.group = str "HETATM") r.group i r.name (if missing r.alt then [] else r.alt.getD []) r.comp (chainId r) n (if missing r.ins then [] else r.ins.getD []) x y z
 
+open P2P.Proofs.Text
+
+theorem str_ATOM : str "ATOM" = ['A','T','O','M'] := by decide
+theorem str_HETATM : str "HETATM" = ['H','E','T','A','T','M'] := by decide
+
+theorem rowOK_group {r : Row} (h : RowOK r = true) : r.group = str "ATOM" ∨ r.group = str "HETATM" := by
+  simp only [RowOK, Bool.and_eq_true, Bool.or_eq_true, decide_eq_true_eq] at h
+  exact h.1.1.1.1.1.1.1.1.1.1.1.1.1
+
+theorem group_field {g : Str} (h : g = str "ATOM" ∨ g = str "HETATM") :
+    g ++ (if g = str "ATOM" then List.replicate (6 - g.length) ' ' else []) = ljust g 6 := by
+  rcases h with h | h <;> subst h <;> decide
+
+theorem name_field (n : Str) :
+    (if n.length < 4 then str "  " else str " ") ++ n ++ List.replicate (3 - n.length) ' ' =
+      ' ' :: (if n.length < 4 then ' ' :: ljust n 3 else n) := by
+  split
+  · simp [str, ljust]
+  · have : 3 - n.length = 0 := by omega
+    simp [str, this]
+
 theorem cif_line_is_pdb_line_core (r : Row) (h : RowOK r = true) :
     assemble r = pdbLine r ++ (if r.charge = some ['?'] then str "  " else []) := by
-  sorry
+  unfold assemble pdbLine padL
+  rw [group_field (rowOK_group h)]
+  simp only [List.append_assoc]
+  congr 2
+  rw [← List.append_assoc, ← List.append_assoc, name_field]
+  simp
+
+structure OK (r : Row) : Prop where
+  group : r.group = str "ATOM" ∨ r.group = str "HETATM"
+  id : 1 ≤ r.id.length ∧ r.id.length ≤ 5
+  name : 1 ≤ r.name.length ∧ r.name.length ≤ 4
+  alt : missing r.alt = true ∨ (r.alt.getD []).length = 1
+  comp : 1 ≤ r.comp.length ∧ r.comp.length ≤ 3
+  chain : (chainId r).length = 1
+  seq : 1 ≤ r.seq.length ∧ r.seq.length ≤ 4
+  ins : missing r.ins = true ∨ (r.ins.getD []).length = 1
+  x : 1 ≤ r.x.length ∧ r.x.length ≤ 8
+  y : 1 ≤ r.y.length ∧ r.y.length ≤ 8
+  z : 1 ≤ r.z.length ∧ r.z.length ≤ 8
+  occ : r.occ.length ≤ 6
+  b : r.b.length ≤ 6
+  sym : r.sym.length ≤ 2
+
+theorem rowOK_ok {r : Row} (h : RowOK r = true) : OK r := by
+  simp only [RowOK, Bool.and_eq_true, Bool.or_eq_true, decide_eq_true_eq] at h
+  obtain ⟨⟨⟨⟨⟨⟨⟨⟨⟨⟨⟨⟨⟨h1, h2⟩, h3⟩, h4⟩, h5⟩, h6⟩, h7⟩, h8⟩, h9⟩, h10⟩, h11⟩, h12⟩, h13⟩, h14⟩ := h
+  exact ⟨h1, h2, h3, h4, h5, h6, h7, h8, h9, h10, h11, h12, h13, h14⟩
+
+/-- the one-character optional field (alternate location / insertion code) -/
+def optField (v : Option Str) : Str := if missing v then [' '] else v.getD []
+
+theorem length_optField {v : Option Str} (h : missing v = true ∨ (v.getD []).length = 1) :
+    (optField v).length = 1 := by
+  unfold optField
+  split
+  · rfl
+  · rcases h with h | h
+    · contradiction
+    · exact h
+
+/-- the four-character name field -/
+def nameField (n : Str) : Str := if n.length < 4 then ' ' :: ljust n 3 else n
+
+theorem length_nameField {n : Str} (h : n.length ≤ 4) : (nameField n).length = 4 := by
+  unfold nameField
+  split
+  · rw [List.length_cons, length_ljust]; omega
+  · omega
+
+/-- the fields of `pdbLine` -/
+def fields (r : Row) : List Str :=
+  [ljust r.group 6, rjust r.id 5, [' '], nameField r.name, optField r.alt, rjust r.comp 3, [' '],
+   rjust (chainId r) 1, rjust r.seq 4, optField r.ins, str "   ", rjust r.x 8, rjust r.y 8, rjust r.z 8,
+   rjust r.occ 6, rjust r.b 6, List.replicate 10 ' ', rjust r.sym 2]
+
+theorem pdbLine_eq_flatten (r : Row) : pdbLine r = (fields r).flatten := by
+  simp [pdbLine, fields, nameField, optField, List.append_assoc]
+
+theorem length_group {g : Str} (h : g = str "ATOM" ∨ g = str "HETATM") : (ljust g 6).length = 6 := by
+  rcases h with h | h <;> subst h <;> decide
+
+theorem fields_lengths {r : Row} (h : OK r) :
+    (fields r).map List.length = [6, 5, 1, 4, 1, 3, 1, 1, 4, 1, 3, 8, 8, 8, 6, 6, 10, 2] := by
+  simp only [fields, List.map_cons, List.map_nil, length_group h.group, length_rjust_of_le h.id.2,
+    length_nameField h.name.2, length_optField h.alt, length_optField h.ins, length_rjust_of_le h.comp.2,
+    length_rjust_of_le (Nat.le_of_eq h.chain), length_rjust_of_le h.seq.2, length_rjust_of_le h.x.2,
+    length_rjust_of_le h.y.2, length_rjust_of_le h.z.2, length_rjust_of_le h.occ, length_rjust_of_le h.b,
+    length_rjust_of_le h.sym, List.length_replicate, List.length_cons, List.length_nil]
+  rfl
+
+theorem length_pdbLine {r : Row} (h : OK r) : (pdbLine r).length = 78 := by
+  rw [pdbLine_eq_flatten, List.length_flatten, fields_lengths h]
+  rfl
 
 theorem cif_pdb_agree_core (het : Bool) (r : Row) (h : RowOK r = true) :
     parseAtom het (assemble r) = parseAtom het (pdbLine r) := by
-  sorry
+  have h1 := P2P.Proofs.Pdb.short_line_same_core het (assemble r) 78 (by omega)
+  rw [← h1, cif_line_is_pdb_line_core r h, List.take_append_of_le_length (by rw [length_pdbLine (rowOK_ok h)]; omega),
+    List.take_of_length_le (by rw [length_pdbLine (rowOK_ok h)]; omega)]
+
+
+/-! ### the record read back -/
+
+theorem take_fields_sum {r : Row} (h : OK r) (i : Nat) :
+    (((fields r).take i).map List.length).sum =
+      (([6, 5, 1, 4, 1, 3, 1, 1, 4, 1, 3, 8, 8, 8, 6, 6, 10, 2] : List Nat).take i).sum := by
+  rw [List.map_take, fields_lengths h]
+
+/-- field `i` of the assembled line -/
+theorem slice_assemble {r : Row} (h : RowOK r = true) (i : Nat) {f : Str} (hf : (fields r)[i]? = some f)
+    {a b : Nat}
+    (ha : (([6, 5, 1, 4, 1, 3, 1, 1, 4, 1, 3, 8, 8, 8, 6, 6, 10, 2] : List Nat).take i).sum = a)
+    (hb : (([6, 5, 1, 4, 1, 3, 1, 1, 4, 1, 3, 8, 8, 8, 6, 6, 10, 2] : List Nat).take (i + 1)).sum = b)
+    (hb78 : b ≤ 78) :
+    slice (assemble r) a b = f := by
+  have hok := rowOK_ok h
+  have hlen : a + f.length = b := by
+    have h1 := take_fields_sum hok (i + 1)
+    obtain ⟨hi, rfl⟩ := List.getElem?_eq_some_iff.mp hf
+    rw [List.take_add_one, List.map_append, List.sum_append, take_fields_sum hok i, ha, hb] at h1
+    simp only [List.getElem?_eq_getElem hi, Option.toList_some, List.map_cons, List.map_nil, List.sum_cons,
+      List.sum_nil, Nat.add_zero] at h1
+    exact h1
+  rw [cif_line_is_pdb_line_core r h, slice_append_left _ _ (by rw [length_pdbLine hok]; exact hb78),
+    pdbLine_eq_flatten]
+  exact slice_flatten_getElem? (fields r) i hf (by rw [take_fields_sum hok i, ha]) hlen
+
+
+
+theorem idx_of_slice {s : Str} {i : Nat} {c : Char} (h : slice s i (i + 1) = [c]) :
+    idx s i = .ok (strip [c]) := by
+  unfold slice at h
+  unfold idx
+  cases hd : s.drop i with
+  | nil => rw [hd] at h; simp at h
+  | cons d t =>
+    rw [hd] at h
+    have : i + 1 - i = 1 := by omega
+    rw [this] at h
+    simp only [List.take_succ_cons, List.take_zero, List.cons.injEq, and_true] at h
+    rw [h]
+
+theorem parseInt?_congr {a b : Str} (h : strip a = strip b) : parseInt? a = parseInt? b := by
+  unfold parseInt?; rw [h]
+
+theorem parseFloat?_congr {a b : Str} (h : strip a = strip b) : parseFloat? a = parseFloat? b := by
+  rw [parseFloat?_eq, parseFloat?_eq, h]
+
+theorem parseInt?_rjust_noWs {s : Str} (hs : NoWs s) (w : Nat) : parseInt? (rjust s w) = parseInt? s :=
+  parseInt?_congr (by rw [strip_rjust hs, strip_noWs hs])
+
+theorem parseFloat?_rjust_noWs {s : Str} (hs : NoWs s) (w : Nat) : parseFloat? (rjust s w) = parseFloat? s :=
+  parseFloat?_congr (by rw [strip_rjust hs, strip_noWs hs])
+
+/-- `parseAtom` on a line whose columns are known -/
+theorem parseAtom_of_columns (het : Bool) (line : Str) (f0 f1 f3 f5 f8 fx fy fz : Str) (c4 c7 c9 : Char)
+    (i n : Int) (x y z : PyFloat)
+    (h0 : slice line 0 6 = f0) (h1 : slice line 6 11 = f1) (h3 : slice line 12 16 = f3)
+    (h4 : slice line 16 17 = [c4]) (h5 : slice line 17 20 = f5) (h7 : slice line 21 22 = [c7])
+    (h8 : slice line 22 26 = f8) (h9 : slice line 26 27 = [c9])
+    (hx : slice line 30 38 = fx) (hy : slice line 38 46 = fy) (hz : slice line 46 54 = fz)
+    (pi : parseInt? f1 = some i) (pn : parseInt? f8 = some n)
+    (px : parseFloat? fx = some x) (py : parseFloat? fy = some y) (pz : parseFloat? fz = some z) :
+    parseAtom het line = .ok ⟨het, strip f0, i, strip f3, strip [c4], strip f5, strip [c7], n, strip [c9], x, y, z⟩ := by
+  unfold parseAtom
+  rw [h0, h1, h3, h5, h8, hx, hy, hz, idx_of_slice h4, idx_of_slice h7, idx_of_slice h9]
+  simp only [pyInt, pyFloat, pi, pn, px, py, pz]
+  cases het <;> rfl
+
+theorem noWs_of_clean {s : Str} (h : s.all (fun c => !isWs c) = true) : NoWs s := (noWs_iff_all s).mpr h
+
+structure Clean (r : Row) : Prop where
+  name : NoWs r.name
+  alt : NoWs (r.alt.getD [])
+  comp : NoWs r.comp
+  chain : NoWs (chainId r)
+  ins : NoWs (r.ins.getD [])
+  id : NoWs r.id
+  seq : NoWs r.seq
+  x : NoWs r.x
+  y : NoWs r.y
+  z : NoWs r.z
+
+theorem rowClean_clean {r : Row} (h : RowClean r = true) : Clean r := by
+  simp only [RowClean, Bool.and_eq_true] at h
+  obtain ⟨⟨⟨⟨⟨⟨⟨⟨⟨h1, h2⟩, h3⟩, h4⟩, h5⟩, h6⟩, h7⟩, h8⟩, h9⟩, h10⟩ := h
+  exact ⟨noWs_of_clean h1, noWs_of_clean h2, noWs_of_clean h3, noWs_of_clean h4, noWs_of_clean h5,
+    noWs_of_clean h6, noWs_of_clean h7, noWs_of_clean h8, noWs_of_clean h9, noWs_of_clean h10⟩
+
+theorem optField_char {v : Option Str} (h : missing v = true ∨ (v.getD []).length = 1) (hc : NoWs (v.getD [])) :
+    ∃ c, optField v = [c] ∧ strip [c] = (if missing v then [] else v.getD []) := by
+  unfold optField
+  by_cases hm : missing v = true
+  · refine ⟨' ', by rw [if_pos hm], ?_⟩
+    rw [if_pos hm]; decide
+  · rcases h with h | h
+    · contradiction
+    · obtain ⟨c, hcv⟩ := List.length_eq_one_iff.mp h
+      refine ⟨c, by rw [if_neg hm, hcv], ?_⟩
+      rw [if_neg hm, hcv]
+      exact strip_noWs (hcv ▸ hc)
+
+theorem strip_nameField {n : Str} (h : NoWs n) : strip (nameField n) = n := by
+  unfold nameField
+  split
+  · exact ((padded_ljust n 3).cons_space).strip h
+  · exact strip_noWs h
+
+theorem strip_groupField {g : Str} (h : g = str "ATOM" ∨ g = str "HETATM") : strip (ljust g 6) = g := by
+  rcases h with h | h <;> subst h <;> decide
 
 theorem cif_record_is_row_core (r : Row) (h : RowOK r = true) (hc : RowClean r = true)
     (i n : Int) (x y z : PyFloat)
     (hi : parseInt? r.id = some i) (hn : parseInt? r.seq = some n)
     (hx : parseFloat? r.x = some x) (hy : parseFloat? r.y = some y) (hz : parseFloat? r.z = some z) :
     parseAtom (r.group = str "HETATM") (assemble r) = .ok (recOfRow r i n x y z) := by
-  sorry
+  have hok := rowOK_ok h
+  have hcl := rowClean_clean hc
+  obtain ⟨c4, e4, s4⟩ := optField_char hok.alt hcl.alt
+  obtain ⟨c9, e9, s9⟩ := optField_char hok.ins hcl.ins
+  obtain ⟨c7, e7⟩ := List.length_eq_one_iff.mp hok.chain
+  have r7 : rjust (chainId r) 1 = [c7] := by rw [rjust_of_ge (by rw [hok.chain]; exact Nat.le_refl _), e7]
+  have s7 : strip [c7] = chainId r := by rw [← e7]; exact strip_noWs hcl.chain
+  rw [parseAtom_of_columns (decide (r.group = str "HETATM")) (assemble r)
+    (ljust r.group 6) (rjust r.id 5) (nameField r.name) (rjust r.comp 3) (rjust r.seq 4)
+    (rjust r.x 8) (rjust r.y 8) (rjust r.z 8) c4 c7 c9 i n x y z
+    (slice_assemble h 0 rfl rfl rfl (by omega))
+    (slice_assemble h 1 rfl rfl rfl (by omega))
+    (slice_assemble h 3 rfl rfl rfl (by omega))
+    (e4 ▸ slice_assemble h 4 rfl rfl rfl (by omega))
+    (slice_assemble h 5 rfl rfl rfl (by omega))
+    (r7 ▸ slice_assemble h 7 rfl rfl rfl (by omega))
+    (slice_assemble h 8 rfl rfl rfl (by omega))
+    (e9 ▸ slice_assemble h 9 rfl rfl rfl (by omega))
+    (slice_assemble h 11 rfl rfl rfl (by omega))
+    (slice_assemble h 12 rfl rfl rfl (by omega))
+    (slice_assemble h 13 rfl rfl rfl (by omega))
+    (by rw [parseInt?_rjust_noWs hcl.id, hi])
+    (by rw [parseInt?_rjust_noWs hcl.seq, hn])
+    (by rw [parseFloat?_rjust_noWs hcl.x, hx])
+    (by rw [parseFloat?_rjust_noWs hcl.y, hy])
+    (by rw [parseFloat?_rjust_noWs hcl.z, hz])]
+  rw [strip_groupField hok.group, strip_nameField hcl.name, s4, s7, s9, strip_rjust hcl.comp]
+  rfl
+
+
+/-! ### models -/
+
+/-- only coordinate records -/
+def AtomsOnly (rs : List Rec) : Prop := ∀ x ∈ rs, ∃ a, x = Rec.atom a
+
+theorem rowRec_atom {r : Row} {o : Option Rec} (h : rowRec r = .ok o) : ∀ x ∈ o, ∃ a, x = Rec.atom a := by
+  unfold rowRec at h
+  split at h
+  · split at h
+    · cases h; intro x hx; cases hx; exact ⟨_, rfl⟩
+    · cases h
+  · split at h
+    · split at h
+      · cases h; intro x hx; cases hx; exact ⟨_, rfl⟩
+      · cases h
+    · cases h; intro x hx; cases hx
+
+theorem mapM_rowRec_atoms (rows : List Row) : ∀ os, rows.mapM rowRec = .ok os →
+    ∀ o ∈ os, ∀ x ∈ o, ∃ a, x = Rec.atom a := by
+  induction rows with
+  | nil =>
+    intro os h
+    simp only [List.mapM_nil, pure, Except.pure] at h
+    cases h
+    intro o ho; cases ho
+  | cons r rows ih =>
+    intro os h
+    rw [List.mapM_cons] at h
+    simp only [bind, Except.bind, pure, Except.pure] at h
+    split at h
+    · cases h
+    · rename_i o ho
+      split at h
+      · cases h
+      · rename_i os' hos'
+        cases h
+        intro o' ho'
+        rcases List.mem_cons.mp ho' with rfl | ho'
+        · exact rowRec_atom ho
+        · exact ih os' hos' o' ho'
+
+theorem rowsRecs_atomsOnly {rows : List Row} {rs : List Rec} (h : rowsRecs rows = .ok rs) : AtomsOnly rs := by
+  unfold rowsRecs at h
+  simp only [bind, Except.bind, pure, Except.pure] at h
+  split at h
+  · cases h
+  · rename_i os hos
+    cases h
+    intro x hx
+    obtain ⟨o, ho, hox⟩ := List.mem_filterMap.mp hx
+    exact mapM_rowRec_atoms rows os hos o ho x (by simpa using hox)
+
+theorem relabel_one (c : Nat) (a : AtomRec) : P2P.Proofs.Pdb.relabel 1 c a = a := by
+  unfold P2P.Proofs.Pdb.relabel
+  simp
+
+theorem firstModel_atoms (rs tail : List Rec) (h : AtomsOnly rs) (m c : Nat) :
+    P2P.Proofs.Pdb.firstModel 1 (rs ++ tail) m c =
+      P2P.Proofs.Pdb.atomsOf rs ++ P2P.Proofs.Pdb.firstModel 1 tail m c := by
+  induction rs with
+  | nil => rfl
+  | cons x rs ih =>
+    obtain ⟨a, rfl⟩ := h x List.mem_cons_self
+    have ih' := ih (fun y hy => h y (List.mem_cons_of_mem _ hy))
+    simp only [List.cons_append, P2P.Proofs.Pdb.firstModel, P2P.Proofs.Pdb.atomsOf, relabel_one, ih']
+
+theorem firstModel_atomsOnly (rs : List Rec) (h : AtomsOnly rs) (m c : Nat) :
+    P2P.Proofs.Pdb.firstModel 1 rs m c = P2P.Proofs.Pdb.atomsOf rs := by
+  have := firstModel_atoms rs [] h m c
+  simpa [P2P.Proofs.Pdb.firstModel] using this
+
+/-- the fold of `countModels` keeps what it has and records every model number -/
+theorem models_fold (rows : List Row) : ∀ acc : List Str,
+    (∀ x ∈ acc, x ∈ rows.foldl (fun acc r => if acc.contains r.model then acc else acc ++ [r.model]) acc) ∧
+    (∀ r ∈ rows, r.model ∈ rows.foldl (fun acc r => if acc.contains r.model then acc else acc ++ [r.model]) acc) := by
+  induction rows with
+  | nil => intro acc; exact ⟨fun x hx => hx, fun r hr => by cases hr⟩
+  | cons r rows ih =>
+    intro acc
+    simp only [List.foldl_cons]
+    obtain ⟨h1, h2⟩ := ih (if acc.contains r.model then acc else acc ++ [r.model])
+    refine ⟨fun x hx => h1 x ?_, fun r' hr' => ?_⟩
+    · split
+      · exact hx
+      · exact List.mem_append_left _ hx
+    · rcases List.mem_cons.mp hr' with rfl | hr'
+      · apply h1
+        split
+        · rename_i hc; simpa using hc
+        · simp
+      · exact h2 r' hr'
+
+theorem model_mem_countModels {rows : List Row} {r : Row} (h : r ∈ rows) : r.model ∈ countModels rows :=
+  (models_fold rows []).2 r h
+
+/-- MODEL j … ENDMDL of one model number -/
+def frame (rows : List Row) (acc : List Rec) (j : Str) : Except CErr (List Rec) := do
+  let rs ← rowsRecs (rows.filter (·.model = j))
+  pure (acc ++ [Rec.model] ++ rs ++ [Rec.other])
+
+theorem atomSite_eq (rows : List Row) :
+    atomSite rows = if (countModels rows).length = 1 then rowsRecs rows
+      else (countModels rows).foldlM (frame rows) [] := rfl
+
+theorem frame_ok {rows : List Row} {acc recs : List Rec} {j : Str} (h : frame rows acc j = .ok recs) :
+    ∃ rs, rowsRecs (rows.filter (·.model = j)) = .ok rs ∧ recs = acc ++ [Rec.model] ++ rs ++ [Rec.other] := by
+  unfold frame at h
+  simp only [bind, Except.bind, pure, Except.pure] at h
+  split at h
+  · cases h
+  · rename_i rs hrs
+    cases h
+    exact ⟨rs, hrs, rfl⟩
+
+theorem foldlM_frame (rows : List Row) (js : List Str) : ∀ acc recs, js.foldlM (frame rows) acc = .ok recs →
+    ∃ tail, recs = acc ++ tail ∧ (tail = [] ∨ ∃ t, tail = Rec.model :: t) := by
+  induction js with
+  | nil =>
+    intro acc recs h
+    simp only [List.foldlM_nil, pure, Except.pure] at h
+    cases h
+    exact ⟨[], by simp, Or.inl rfl⟩
+  | cons j js ih =>
+    intro acc recs h
+    rw [List.foldlM_cons] at h
+    simp only [bind, Except.bind] at h
+    split at h
+    · cases h
+    · rename_i acc' hacc'
+      obtain ⟨rs, -, rfl⟩ := frame_ok hacc'
+      obtain ⟨tail, rfl, -⟩ := ih _ _ h
+      exact ⟨[Rec.model] ++ rs ++ [Rec.other] ++ tail, by simp, Or.inr ⟨_, rfl⟩⟩
+
+theorem firstModel_stop (tail : List Rec) (h : tail = [] ∨ ∃ t, tail = Rec.model :: t) (c : Nat) :
+    P2P.Proofs.Pdb.firstModel 1 tail 1 c = [] := by
+  rcases h with rfl | ⟨t, rfl⟩
+  · rfl
+  · simp [P2P.Proofs.Pdb.firstModel]
 
 theorem first_model_only_core (rows : List Row) (recs : List Rec) (h : atomSite rows = .ok recs) :
     ∃ rs1, rowsRecs (rows.filter (·.model = (countModels rows).headD [])) = .ok rs1 ∧
       P2P.Proofs.Pdb.firstModel 1 recs 0 0 = P2P.Proofs.Pdb.atomsOf rs1 := by
-  sorry
+  rw [atomSite_eq] at h
+  cases hcm : countModels rows with
+  | nil =>
+    have hrows : rows = [] := by
+      cases rows with
+      | nil => rfl
+      | cons r rows =>
+        have := model_mem_countModels (rows := r :: rows) (r := r) List.mem_cons_self
+        rw [hcm] at this; cases this
+    subst hrows
+    rw [hcm] at h
+    simp only [List.length_nil, List.foldlM_nil, pure, Except.pure] at h
+    rw [if_neg (by decide)] at h
+    cases h
+    exact ⟨[], rfl, rfl⟩
+  | cons m1 rest =>
+    rw [hcm] at h
+    change ∃ rs1, rowsRecs (rows.filter (·.model = m1)) = .ok rs1 ∧
+      P2P.Proofs.Pdb.firstModel 1 recs 0 0 = P2P.Proofs.Pdb.atomsOf rs1
+    by_cases h1 : (m1 :: rest).length = 1
+    · rw [if_pos h1] at h
+      have hrest : rest = [] := by
+        cases rest with
+        | nil => rfl
+        | cons _ _ => simp at h1
+      subst hrest
+      have hfil : rows.filter (·.model = m1) = rows := by
+        rw [List.filter_eq_self]
+        intro r hr
+        have := model_mem_countModels hr
+        rw [hcm] at this
+        simpa using this
+      rw [hfil]
+      exact ⟨recs, h, firstModel_atomsOnly recs (rowsRecs_atomsOnly h) 0 0⟩
+    · rw [if_neg h1, List.foldlM_cons] at h
+      simp only [bind, Except.bind] at h
+      split at h
+      · cases h
+      · rename_i acc' hacc'
+        obtain ⟨rs1, hrs1, rfl⟩ := frame_ok hacc'
+        obtain ⟨tail, rfl, htail⟩ := foldlM_frame rows rest _ _ h
+        refine ⟨rs1, hrs1, ?_⟩
+        simp only [List.nil_append, List.cons_append, List.append_assoc, P2P.Proofs.Pdb.firstModel]
+        rw [if_neg (by omega), firstModel_atoms rs1 _ (rowsRecs_atomsOnly hrs1)]
+        simp only [P2P.Proofs.Pdb.firstModel, firstModel_stop tail htail, List.append_nil]
 
 end P2P.Proofs.Cif
